@@ -155,7 +155,7 @@ type c08pCall struct {
 	seenClosed bool          // breaker seen CLOSED just before the call
 	exitsAt    int           // transport exits (by any call) counted at the start
 	pool       int
-	quietStart bool          // no other call was between transport exit and return at the start
+	quietStart bool // no other call was between transport exit and return at the start
 	op         c08pOp
 	sends      int
 	outcome    string
@@ -341,6 +341,9 @@ func c08pExec(r *sim.Run, sci interface{}) {
 					return
 				}
 				stdr.RemoteAddr = "203.0.113.9:40000"
+				if stdr.Body == nil {
+					stdr.Body = http.NoBody // as on a server-side request (a shrunk scenario may have a stream with no bytes)
+				}
 				req, err := httpprot.NewRequest(stdr)
 				if err != nil {
 					return
